@@ -13,7 +13,7 @@ from .. import strategies as S
 from ..run import Outcome
 
 ID = "C14"
-BUDGET = {"quick": 5000, "thorough": 70000}
+BUDGET = {"quick": 16000, "thorough": 160000}
 MODELS = ["IC", "IAC", "from_point", "from_alpha", "name_PlackettLuce", "short_name_PlackettLuce",
           "name_BradleyTerry", "name_BradleyTerry_MCMC", "name_Cumulative", "slate_PlackettLuce",
           "slate_BradleyTerry", "slate_BradleyTerry_MCMC", "AlternatingCrossover", "CambridgeSampler",
